@@ -38,7 +38,9 @@ RULE = ("random plate sets: 1-12 plates of unequal sizes 1..40 (single plate, si
         "and sub-sampling budgets 50, 777, 6000 (number of triples gathered = min(C, budget)); plus the hardening classes 10-13 (every argument a temporary of the shape of the previous round; one scorer object with another generator; "
         "plates scored in instalments vs one call; plate widths and plate counts 127/128/129/255/256/257; budgets 4999/5001 around the default); oracles "
         "fire only on valid inputs for stated clauses -- invalid shapes, < 3 samples, the empty dict, dict key order, in-place modification as such, "
-        "the internal pad helper and the number of sub-sampled triples are ties/counters; plus (item 18) the scorer through the real calculate_scores.main() with --scorer-param max_chunk/max_triples (budgets C(n,3), C+1, 5000, "
+        "the internal pad helper and the number of sub-sampled triples are ties/counters; plus (item 22, class offset-means) means = offset + N(0,1)*spread with offsets 1e3, 1e5, 1e7, -1e6 or another offset per experiment, tiny plates, all entry "
+        "points, against the direct estimator computed from the DIFFERENCES with the tolerance 512 ulp * (condition of the log-weight sum + |score|); "
+        "plus (item 18) the scorer through the real calculate_scores.main() with --scorer-param max_chunk/max_triples (budgets C(n,3), C+1, 5000, "
         "20000; n_thetas 34/36 so that the budget lies above the default), thetas / distance matrix split over two files, oracle on the scores file, tie on what "
         "scorer and kernel receive; (item 19) a tenth of the plate sets, the classes, one n_thetas>33 case, a fifth of the real-object cases and the n>=34 / every third "
         "CLI case under verbose logging (same oracles + bit-identical scores); plus the scorer driven through real "
@@ -777,6 +779,97 @@ def cli_case(case):
     return fails, {"scores": scores}
 
 
+def ref_logweights_cond(D, factor, m, v, triples):
+    """like ref_logweights (the documented estimator, from DIFFERENCES of the means), and with every log-weight the sum S of the absolute
+    values of its summands: a rounding error of u per operation perturbs the log-weight by O(u * S) -- S is the condition of the sum."""
+    L = len(m[0])
+    out = []
+    for (i, j, l) in triples:
+        d = D[i][j] + D[j][l] + D[i][l]
+        if d == 0:
+            continue
+        lw = factor * math.log(d)
+        S = abs(lw)
+        for e in range(L):
+            m1, m2, m3 = m[i][e], m[j][e], m[l][e]
+            v1, v2, v3 = v[i][e], v[j][e], v[l][e]
+            a = v1 * v2 + v2 * v3 + v1 * v3
+            q = v3 * (m1 - m2) ** 2 + v2 * (m1 - m3) ** 2 + v1 * (m2 - m3) ** 2
+            t1, t2 = -0.5 * math.log(a), -(v1 * v2 * v3) / (2.0 * a * a) * q
+            lw += t1 + t2
+            S += abs(t1) + abs(t2)
+        out.append((lw, S))
+    return out
+
+
+EPS = 2.0 ** -52
+
+
+def offset_case(case):
+    """HARDENING item 22, class `offset-means`: predicted means with a large common offset (1e3, 1e5, 1e7, -1e6, or another offset per
+    experiment) and a spread of O(1).  The documented estimator depends on the means only through their DIFFERENCES, which are exact in
+    floating point here, so the direct loop estimator is accurate to a few units in the last place of its summands.  Tolerance, derived from the
+    condition of the sum and not from the size of the means: log-sum-exp is 1-Lipschitz in the sup norm of the log-weights, each log-weight
+    is a sum whose summands have absolute values adding up to S, so any evaluation that makes O(1) rounding errors per operation --
+    every legitimate re-association / re-ordering -- lands within K * 2^-52 * (max S + |score|), K = 512 covering the number of operations
+    per summand and the summation order.  A rewrite `m_i^2 + m_j^2 - 2 m_i m_j` is algebraically equal (Lean: C05_expanded_square_invisible)
+    but its error is 2^-52 * m^2 instead of 2^-52 * (m_i - m_j)^2: at an offset of 1e7 that is 1e-3 relative, ten orders above this bound."""
+    from batchie.scoring import gaussian_dbal as gd
+    r = random.Random(case["subseed"])
+    g = np.random.default_rng(r.randrange(2 ** 63))
+    n = r.choice([3, 4, 5])
+    C = math.comb(n, 3)
+    P = r.choice([1, 2, 3])
+    sizes = [r.choice([1, 2, 3]) for _ in range(P)]
+    spread = r.choice([0.5, 1.0, 3.0])
+    homo = r.random() < 0.5
+    kind = case["offset"]
+    means, variances = [], []
+    for L in sizes:
+        if kind == "per-experiment":
+            off = np.array([r.choice([1e3, -1e5, 1e7, -1e6, 3e6]) for _ in range(L)])[None, :]
+        else:
+            off = float(kind)
+        means.append(off + g.normal(size=(n, L)) * spread)
+        variances.append((10.0 ** g.uniform(-1, 1, size=(n, 1))) * np.ones((n, L)) if homo else 10.0 ** g.uniform(-1, 1, size=(n, L)))
+    U = np.triu(g.uniform(0.1, 2.0, size=(n, n)), 1)
+    D = U + U.T
+    all_triples = [(a, b, cc) for a in range(n) for b in range(a) for cc in range(b)]
+    fails = []
+    refs, tols = [], []
+    for m, v in zip(means, variances):
+        lws = ref_logweights_cond(D.tolist(), 1.0, m.tolist(), v.tolist(), all_triples)
+        sc = ref_score([x[0] for x in lws])
+        refs.append(sc)
+        tols.append(512.0 * EPS * (max(x[1] for x in lws) + abs(sc)))
+    got = {}
+    try:
+        got["heteroscedastic"] = gd.dbal_fast_gaussian_scoring_heteroscedastic(means, variances, D, np.random.default_rng(1), max_combos=C)
+        W = max(sizes) + r.choice([0, 2])
+        got["vectorised"] = gd.dbal_fast_gauss_scoring_vectorized(pad_dense(means, W, 0.0), pad_dense(variances, W, np.nan), D, np.random.default_rng(2), max_combos=C)
+        if homo:
+            got["homoscedastic"] = gd.dbal_fast_gaussian_scoring_homoscedastic(means, np.array([v[:, 0] for v in variances]), D, np.random.default_rng(3), max_combos=C)
+        ids = list(range(10, 10 + P))
+        o = gd.GaussianDBALScorer(max_chunk=r.choice([1, 50]), max_triples=C).score(
+            plates={i: StubPlate(m, v) for i, m, v in zip(ids, means, variances)}, distance_matrix=StubDM(D), samples=StubThetas(n),
+            rng=np.random.default_rng(4), progress_bar=False)
+        got["scorer"] = [o[i] for i in ids]
+    except Exception as e:  # noqa
+        fails.append(("an entry point raises on valid input", {"class": "offset-means", "error": type(e).__name__ + ": " + str(e)[:200]}, "scores", rsig(e)))
+        return fails
+    for name, vals in got.items():
+        vals = [float(x) for x in vals]
+        for k_, (x, want, tol) in enumerate(zip(vals, refs, tols)):
+            if not (abs(x - want) <= tol):
+                fails.append(("%s score differs from the direct estimator (computed from the differences of the means) by more than rounding allows "
+                              "when the predicted means share a large offset" % name,
+                              {"class": "offset-means", "offset": kind, "spread": spread, "entry": name, "plate": k_, "score": x, "abs_error": abs(x - want),
+                               "relative_error": abs(x - want) / max(abs(want), 1e-300)},
+                              {"score": want, "tolerance(512 ulp of the sum's condition)": tol}, "offset-means"))
+                return fails
+    return fails
+
+
 def classes_case(subseed):
     """hardening classes 10-13 (HARDENING_CHECKLIST.md), one small scenario each; returns (fails, counts)"""
     from batchie.scoring import gaussian_dbal as gd
@@ -1143,6 +1236,19 @@ def run(ctx, res):
             for (what, observed, required, sig) in vfails:
                 emit(res, what + " [verbose logging]", vcase, observed, required, sig)
 
+    # ---- item 22: means with a large common offset -------------------------------------------------------------------------------------
+    oseeds = ctx.subrng("offset")
+    for oi, kind in enumerate(["1000.0", "100000.0", "10000000.0", "-1000000.0", "per-experiment", "per-experiment", "10000000.0", "100000.0",
+                               "-1000000.0", "per-experiment", "1000.0", "10000000.0"] * ctx.scale(1, 5, 3)):
+        case = {"kind": "offset", "subseed": oseeds.randrange(2 ** 48), "offset": kind}
+        fails = offset_case(case)
+        res.evaluations += 1
+        res.count("class.offset-means")
+        res.count("class.offset-means." + kind)
+        res.nontrivial.add(("offset", kind, case["subseed"]))
+        for (what, observed, required, sig) in fails:
+            emit(res, what, case, observed, required, sig)
+
     # ---- item 18: the real entry point; item 19: some of them under --verbose, compared with the quiet run of the same input -------------
     kseeds = ctx.subrng("cli")
     C34 = math.comb(34, 3)
@@ -1297,6 +1403,10 @@ def replay(ctx, case, res):
 
 
 def _replay(ctx, case, res):
+    if case.get("kind") == "offset":
+        for (what, observed, required, sig) in offset_case(case):
+            emit(res, what, case, observed, required, sig, replaying=True)
+        return
     if case.get("kind") == "cli":
         fails, _out = cli_case(case)
         if not fails and case.get("verbose"):
